@@ -1,6 +1,6 @@
 (* C13 — Every search terminates and standard scans are linear in the haystack. *)
 From DV Require Import Model.Base Model.Nfa Model.BwBuild Model.BwSearch Model.Utf8 Model.CwBuild Model.Api Model.Spec
-     Model.Cert Proofs.BwCert Proofs.Leftmost Proofs.BwLeftmost Proofs.Utf8Props Proofs.CwCert.
+     Model.Cert Proofs.BwCert Proofs.Leftmost Proofs.BwLeftmost Proofs.Utf8Props Proofs.CwCert Proofs.TrieInv Proofs.BuiltAutomata.
 Local Open Scope N_scope.
 
 (* The model counts every iteration of the transition loop (the [ticks] field threaded through the
@@ -90,3 +90,27 @@ Example c13_observed :
   | _ => False
   end.
 Proof. vm_compute. split; reflexivity. Qed.
+
+(* C13 for EVERY built byte-wise automaton of the standard kind (builder theorem, see C01): each
+   standard iterator run to exhaustion terminates within the fuel of the public entry point and
+   takes at most 2n transition-loop iterations on a haystack of n bytes. *)
+Theorem bw_standard_scans_linear_for_every_built_automaton :
+  forall (V : Type) (veqb : V -> V -> bool), (forall a b, veqb a b = true <-> a = b) ->
+  forall nfb (pvs : list (list N * V)) (A : bw_automaton V),
+    (forall p v, In (p, v) pvs -> Forall (fun b => b < 256) p) -> 4 * total_len V pvs <= U32_MAX - 1 ->
+    bw_build_with_values V Standard nfb pvs = Ok A ->
+  forall h : list N, Forall (fun b => b < 256) h ->
+    (exists ms it', drain V (find_next V (bw_sget V A) (bw_oget V A) (bw_nslots V A)) (S (S (length h))) (find_init h) = Ok (ms, it')
+                    /\ (N.to_nat (f_ticks it') <= 2 * length h)%nat)
+    /\ (exists ms it', drain V (nos_next V (bw_sget V A) (bw_oget V A) (bw_nslots V A)) (S (S (length h))) (nos_init h) = Ok (ms, it')
+                    /\ (N.to_nat (x_ticks it') <= 2 * length h)%nat)
+    /\ (exists ms it', drain V (ovl_next V (bw_sget V A) (bw_oget V A) (bw_nslots V A))
+                              (S (S (length h) * S (length (bw_outputs A)))) (ovl_init h) = Ok (ms, it')
+                    /\ (N.to_nat (v_ticks it') <= 2 * length h)%nat).
+Proof.
+  intros V veqb Hv nfb pvs A Hb Hs B h Hh. split; [|split].
+  - exact (built_find_linear V veqb Hv nfb pvs A Hb Hs B h Hh).
+  - exact (built_nosuffix_linear V veqb Hv nfb pvs A Hb Hs B h Hh).
+  - exact (built_overlapping_linear V veqb Hv nfb pvs A Hb Hs B h Hh).
+Qed.
+Print Assumptions bw_standard_scans_linear_for_every_built_automaton.
